@@ -209,8 +209,12 @@ if (sign && i >= -1ull << 63)
 	return t->u.basic.issigned && i >= -1ull << (t->size << 3) - 1;
 return i <= 0xffffffffffffffffull >> (8 - t->size << 3) + t->u.basic.issigned;
 ```
-(`<<`/`>>` bind weaker than `+`/`-`.)  Precondition `t->prop & PROPINT` (so `size ≤ 8`). -/
+(`<<`/`>>` bind weaker than `+`/`-`.)  Precondition `t->prop & PROPINT` (so `size ≤ 8`).  `ATy.stripEnum` is
+defined further up; an enumerated type is replaced by its underlying type first. -/
 def typehasint (sc : Bool) (t : ATy) (i : Nat) (sign : Bool) : Bool :=
+  -- `if (t->kind == TYPEENUM && t->base) t = t->base; if (t->kind == TYPEBOOL) return i <= 1;` (fix 08f8fa4:
+  -- `_Bool` holds only 0 and 1 although it occupies a byte)
+  if t.stripEnum = .basic .bool then decide (i ≤ 1) else
   if sign && decide (i ≥ shl64 allOnes64 63) then
     t.issigned sc && decide (i ≥ shl64 allOnes64 ((t.size * 2 ^ 3) - 1))
   else
